@@ -360,6 +360,8 @@ def run(ctx):
                         d = f.deep(rv["o"])
                     elif rv["k"] == "agg":
                         d = (rv["name"] or rv["what"]) + "{" + ", ".join(f.deep(o) for o in rv["ops"]) + "}"
+                    elif rv["k"] == "bin":
+                        d = "(%s %s %s)" % (f.deep(rv["a"]), rv["op"], f.deep(rv["b"]))     # unchecked arithmetic (release profile)
                     else:
                         d = rv["k"]
                     fields = [x for x in parts if isinstance(x, str) and "." in x]
